@@ -83,6 +83,7 @@ type State struct {
 	ID      int
 	Marks   map[string]Val  // harness-visible ghost values
 	Choices []int           // zzvp.Choose decisions taken on this path
+	InSeq   []string        // "kind:name" of every zzvp.Any*() input created on this path, in call order (native replay feeds them back in this order)
 	Asserts []pendingAssert // assertions awaiting discharge at the end of the path (one batched query)
 	Spy     []spyRec        // calls of harness-declared contract stubs on this path (arguments and results)
 	Dead    bool            // already reported as finished (dropped) from inside a region
@@ -97,7 +98,7 @@ type spyRec struct {
 type pendingAssert struct{ Label, Cond string }
 
 func (s *State) clone() *State {
-	n := &State{Heap: make(map[int]Val, len(s.Heap)), NextObj: s.NextObj, PC: append([]string{}, s.PC...), Reached: map[string]bool{}, Steps: s.Steps, ID: s.ID, Choices: append([]int{}, s.Choices...), Asserts: append([]pendingAssert{}, s.Asserts...), Spy: append([]spyRec{}, s.Spy...)}
+	n := &State{Heap: make(map[int]Val, len(s.Heap)), NextObj: s.NextObj, PC: append([]string{}, s.PC...), Reached: map[string]bool{}, Steps: s.Steps, ID: s.ID, Choices: append([]int{}, s.Choices...), InSeq: append([]string{}, s.InSeq...), Asserts: append([]pendingAssert{}, s.Asserts...), Spy: append([]spyRec{}, s.Spy...)}
 	for k, v := range s.Reached {
 		n.Reached[k] = v
 	}
